@@ -18,6 +18,7 @@ import (
 	"runtime/debug"
 	"sort"
 	"strings"
+	"sync/atomic"
 	"testing"
 	"time"
 
@@ -47,42 +48,69 @@ func TestWorker(t *testing.T) {
 // Write calls and as a race inside the shared json.Encoder.
 type simWriter struct {
 	k       *kernel.Kernel
-	buf     []byte // scheduler-side
-	inWrite bool   // scheduler-side
-	writes  int    // scheduler-side
-	panicAt int    // scheduler-side: index of the Write that panics, -1 none
+	buf     []byte       // scheduler-side
+	inWrite map[int]bool // scheduler-side, per handler family
+	writes  int          // scheduler-side
+	panicAt int          // scheduler-side: index of the Write that panics, -1 none
+	errAt   int          // scheduler-side: index of the Write that fails with an error, -1 none
+
+	// curFam[i] is the handler family (the handlers that go back to one
+	// constructor call) task i is handling through; famFailed[f] is set once a
+	// Write made for family f has failed.  Both scheduler-side.
+	curFam    []int
+	famFailed map[int]bool
 }
+
+// errWriterFailed is what the writer returns when told to fail that way.
+var errWriterFailed = fmt.Errorf("verif: the writer fails")
 
 // errWriterPanic is what the writer panics with when told to fail that way.
 var errWriterPanic = fmt.Errorf("verif: the writer panics")
 
 func (w *simWriter) Write(p []byte) (int, error) {
 	k := w.k
-	half := len(p) / 2
-	first := append([]byte(nil), p[:half]...)
-	second := append([]byte(nil), p[half:]...)
+	// The writer itself is one whose Write calls are atomic (as a file's are):
+	// the bytes of one call stay together.  Handlers that go back to one
+	// constructor call must serialise their calls all the same (they share
+	// one encoder); separately constructed handlers need not.
+	whole := append([]byte(nil), p...)
+	fam := -1
 	fail := k.Ask("writer.begin", func() any {
-		if w.inWrite {
-			k.Fail("overlapping-write", "JSONHybridHandler.Handle", "a Write to the shared writer began while another one was in progress")
+		if t := k.LastRun(); t != nil && t.Idx < len(w.curFam) {
+			fam = w.curFam[t.Idx]
+		}
+		if w.inWrite[fam] {
+			k.Fail("overlapping-write", "JSONHybridHandler.Handle", "a Write to the shared writer began while another one by a handler sharing the same encoder was in progress")
 		}
 		w.writes++
 		if w.writes-1 == w.panicAt {
-			return true
+			return 1
 		}
-		w.inWrite = true
-		w.buf = append(w.buf, first...)
+		if w.writes-1 == w.errAt {
+			w.famFailed[fam] = true
 
-		return false
-	}).(bool)
-	if fail {
+			return 2
+		}
+		w.inWrite[fam] = true
+
+		return 0
+	}).(int)
+	switch fail {
+	case 1:
 		// A fault of the environment: this record's line is lost, every later
 		// record must still come out (the handler must not stay locked).
 		panic(errWriterPanic)
+	case 2:
+		// The other kind: the Write fails.  This record's line is lost, and
+		// the handlers that share the failed encoder may lose later ones too
+		// (encoding/json remembers a failed Write); a handler constructed
+		// separately for the same writer must not be affected.
+		return 0, errWriterFailed
 	}
 	k.Yield("writer.mid")
 	k.Tell("writer.end", func() {
-		w.buf = append(w.buf, second...)
-		w.inWrite = false
+		w.buf = append(w.buf, whole...)
+		w.inWrite[fam] = false
 	})
 
 	return len(p), nil
@@ -167,6 +195,9 @@ type handled struct {
 	id    int
 	level slog.Level
 	want  string // predicted message
+	// optional: handled through a family one of whose Writes has failed; its
+	// line may be missing.
+	optional bool
 }
 
 type outLine struct {
@@ -180,11 +211,18 @@ func run(rc *kernel.RunCtx) {
 	k.KeepLog = rc.KeepLog
 	k.EnablePool(rc.Stats)
 
-	w := &simWriter{k: k, panicAt: -1}
+	w := &simWriter{k: k, panicAt: -1, errAt: -1, famFailed: map[int]bool{}, inWrite: map[int]bool{}}
 	if tp.Bool(1, 12) {
 		w.panicAt = tp.Choose(6)
 		rc.Stats.Fault("writer-panic-armed")
 	}
+	if tp.Bool(1, 10) {
+		w.errAt = tp.Choose(6)
+		rc.Stats.Fault("writer-error-armed")
+	}
+	// In some runs tasks construct further handlers for the same writer (with
+	// the same options) while the run is under way.
+	moreRoots := tp.Bool(1, 3)
 	ph := &phaseBox{}
 
 	// Options.
@@ -234,6 +272,24 @@ func run(rc *kernel.RunCtx) {
 		}
 	}
 	_ = removeTime
+	// A ReplaceAttr that logs: for an attribute named "reenter" it handles a
+	// record of its own through the root handler before it returns (a
+	// redaction hook that reports what it redacts).  running is set just
+	// before the tasks are created; the predictions made before do not log.
+	running := false
+	reentrant := false
+	var reenterFn func(ti int)
+	if opts != nil && opts.ReplaceAttr == nil && tp.Bool(1, 2) {
+		reentrant = true
+		opts.ReplaceAttr = func(groups []string, a slog.Attr) slog.Attr {
+			if running && len(groups) == 0 && a.Key == "reenter" && a.Value.Kind() == slog.KindInt64 {
+				reenterFn(int(a.Value.Int64()))
+			}
+
+			return a
+		}
+		rc.Stats.Probe("replaceattr-that-logs")
+	}
 	// Records normally carry a unique "id" attribute; some runs do without,
 	// so that records with no attributes at all occur (lines are compared as
 	// a multiset, which does not need uniqueness).
@@ -295,9 +351,22 @@ func run(rc *kernel.RunCtx) {
 		name     string
 		ctx      context.Context
 		shared   bool // the record value is handed out as it is, see sharedRecs
+		newRoot  bool // construct a handler for the same writer before the step and make it the own one
+		fam      int  // family of the handler the record is handled through
 	}
 	nTasks := tp.Range(1, 4)
 	plans := make([][]step, nTasks)
+	w.curFam = make([]int, nTasks)
+	// inAPI[i] > 0 while task i is inside a call into the code under test
+	// (written by the task itself; read when a run has stalled).
+	inAPI := make([]atomic.Int32, nTasks)
+	nesting := make([]int, nTasks) // touched by task i only
+	nestedRecs := make([]slog.Record, nTasks)
+	nestedWant := make([]string, nTasks)
+	for ti := range nestedRecs {
+		nestedRecs[ti] = slog.NewRecord(time.Time{}, slog.LevelError, "redacted by T"+kernel.Itoa(ti), 0)
+		nestedWant[ti] = predict(nestedRecs[ti], nil)
+	}
 	// The context a record is handled with must not matter ("Canceling the
 	// context should not affect record processing", slog.Handler): each task
 	// has its own live, cancelled, expired and value-carrying contexts,
@@ -339,13 +408,21 @@ func run(rc *kernel.RunCtx) {
 	}
 	for ti := range plans {
 		hasOwn := false
+		ownFam := 0
 		var ownAttrs []slog.Attr
 		for n := tp.Range(1, 4); n > 0; n-- {
 			st := step{deriveOf: -1}
-			if tp.Bool(deriveNum, 4) {
+			if moreRoots && tp.Bool(1, 4) {
+				st.newRoot = true
+				hasOwn = true
+				ownFam = 1 + ti
+				ownAttrs = nil
+				rc.Stats.Probe("handler-constructed-during-run")
+			} else if tp.Bool(deriveNum, 4) {
 				st.deriveOf = tp.Choose(min(nStatic, 2))
 				st.attrs = derivPool[tp.Choose(len(derivPool))]
 				hasOwn = true
+				ownFam = 0
 				ownAttrs = append(append([]slog.Attr(nil), nodes[st.deriveOf].attrs...), st.attrs...)
 			}
 			st.node = tp.Choose(nStatic)
@@ -385,6 +462,9 @@ func run(rc *kernel.RunCtx) {
 				sharedRecs = append(sharedRecs, r)
 				st.shared = true
 			}
+			if reentrant && !st.shared && tp.Bool(1, 3) {
+				r.AddAttrs(slog.Int("reenter", ti))
+			}
 			st.rec = r
 			st.ctx = ctx
 			if tp.Bool(1, 4) {
@@ -400,10 +480,68 @@ func run(rc *kernel.RunCtx) {
 			} else {
 				st.want = predict(r, ownAttrs)
 				st.name = "own handler of T" + kernel.Itoa(ti)
+				st.fam = ownFam
 			}
 			plans[ti] = append(plans[ti], st)
 		}
 	}
+
+	reenterFn = func(ti int) {
+		if ti < 0 || ti >= nTasks || nesting[ti] > 0 {
+			return
+		}
+		nesting[ti]++
+		defer func() { nesting[ti]-- }()
+		prev := k.Ask("nested.begin", func() any {
+			p := w.curFam[ti]
+			w.curFam[ti] = 0
+
+			return p
+		}).(int)
+		inAPI[ti].Add(1)
+		_, pv, _ := safeHandle(nodes[0].h, ctx, nestedRecs[ti].Clone())
+		inAPI[ti].Add(-1)
+		if pv != nil {
+			// The writer's panic goes on through ReplaceAttr and the outer
+			// Handle, as it would without the harness.
+			k.Tell("nested.panicked", func() { w.curFam[ti] = prev })
+			panic(pv)
+		}
+		k.Tell("nested.handled", func() {
+			w.curFam[ti] = prev
+			done = append(done, handled{task: ti, seq: seqs[ti], level: slog.LevelError, want: nestedWant[ti], optional: w.famFailed[0]})
+			seqs[ti]++
+			rc.Stats.Probe("record-handled-from-inside-replaceattr")
+		})
+	}
+	// A stalled run: a task waits for a lock.  Under a cooperative scheduler
+	// that is normally an artefact (the holder is parked at a yield inside
+	// the code under test) - unless every other task is outside the code
+	// under test, where it can hold none of its locks: then the waiting tasks
+	// wait for themselves, for each other or for a lock that a finished call
+	// left locked, and never get on.
+	k.OnStall = func(info *kernel.StallInfo) *kernel.Violation {
+		waiting := map[int]bool{}
+		for _, id := range info.MutexBlocked {
+			t := k.TaskOfGoid(id)
+			if t == nil || t.Idx >= nTasks {
+				return nil
+			}
+			waiting[t.Idx] = true
+		}
+		for i := range inAPI {
+			if !waiting[i] && inAPI[i].Load() > 0 {
+				return nil
+			}
+		}
+
+		return &kernel.Violation{
+			Class: "deadlock",
+			Site:  "JSONHybridHandler.Handle",
+			Msg:   "a task waits for a lock inside a handler call while no other task is inside the code under test: nobody can ever release it (a lock taken twice on one call path, or left locked by a finished call)",
+		}
+	}
+	running = true
 
 	for ti := 0; ti < nTasks; ti++ {
 		ti := ti
@@ -412,15 +550,25 @@ func run(rc *kernel.RunCtx) {
 			for _, st := range plans[ti] {
 				st := st
 				k.Yield("op")
+				if st.newRoot {
+					inAPI[ti].Add(1)
+					own = slogutil.NewJSONHybridHandler(w, opts)
+					inAPI[ti].Add(-1)
+					k.Yield("constructed")
+				}
 				if st.deriveOf >= 0 {
+					inAPI[ti].Add(1)
 					own = nodes[st.deriveOf].h.WithAttrs(st.attrs)
+					inAPI[ti].Add(-1)
 					k.Yield("derived")
 				}
 				h := own
 				if st.node >= 0 {
 					h = nodes[st.node].h
 				}
+				inAPI[ti].Add(1)
 				enabled := h.Enabled(st.ctx, st.rec.Level)
+				inAPI[ti].Add(-1)
 				if enabled != (st.rec.Level >= cfgLevel) {
 					k.Report("enabled", "JSONHybridHandler.Enabled", fmt.Sprintf(
 						"handler %s (configured level %v): Enabled(%v) = %v", st.name, cfgLevel, st.rec.Level, enabled))
@@ -437,7 +585,10 @@ func run(rc *kernel.RunCtx) {
 					rec = rec.Clone()
 				}
 				want := st.want
+				k.Tell("handle.begin", func() { w.curFam[ti] = st.fam })
+				inAPI[ti].Add(1)
 				err, pv, stack := safeHandle(h, st.ctx, rec)
+				inAPI[ti].Add(-1)
 				if pv == error(errWriterPanic) {
 					// The injected fault: no line for this record.
 					k.Tell("writer-panicked", func() { rc.Stats.Fault("writer-panicked") })
@@ -453,7 +604,7 @@ func run(rc *kernel.RunCtx) {
 				// statement; the output checks decide.
 				_ = err
 				k.Tell("handled", func() {
-					done = append(done, handled{task: ti, seq: seqs[ti], id: st.id, level: st.rec.Level, want: want})
+					done = append(done, handled{task: ti, seq: seqs[ti], id: st.id, level: st.rec.Level, want: want, optional: w.famFailed[st.fam]})
 					seqs[ti]++
 				})
 			}
@@ -580,13 +731,22 @@ func checkOutput(rc *kernel.RunCtx, out []byte, done []handled) {
 			lines = append(lines, o)
 		}
 	}
-	if len(lines) != len(done) {
-		rc.Fail("line-count", site, fmt.Sprintf("%d records were handled but the writer holds %d lines:\n%s", len(done), len(lines), out))
+	nOptional := 0
+	for _, d := range done {
+		if d.optional {
+			nOptional++
+		}
+	}
+	if len(lines) > len(done) || len(lines) < len(done)-nOptional {
+		rc.Fail("line-count", site, fmt.Sprintf("%d records were handled (%d of them through handlers whose writer had failed: their lines may be missing) but the writer holds %d lines:\n%s",
+			len(done), nOptional, len(lines), out))
 
 		return
 	}
-	// Multiset equality of (severity, message).
+	// Multiset comparison of (severity, message): every required line is
+	// there, and every line there is a required or an optional one.
 	want := map[outLine]int{}
+	optional := map[outLine]int{}
 	for _, d := range done {
 		sev := "NORMAL"
 		if d.level >= slog.LevelError {
@@ -594,10 +754,19 @@ func checkOutput(rc *kernel.RunCtx, out []byte, done []handled) {
 		}
 		// The JSON encoder replaces invalid UTF-8 by U+FFFD; slog.TextHandler
 		// output is valid UTF-8 (it quotes such strings), so this is identity.
-		want[outLine{severity: sev, message: strings.ToValidUTF8(d.want, "�")}]++
+		l := outLine{severity: sev, message: strings.ToValidUTF8(d.want, "�")}
+		if d.optional {
+			optional[l]++
+		} else {
+			want[l]++
+		}
 	}
 	for _, l := range lines {
-		want[l]--
+		if want[l] > 0 || optional[l] == 0 {
+			want[l]--
+		} else {
+			optional[l]--
+		}
 	}
 	var diffs []string
 	for l, n := range want {
